@@ -16,16 +16,6 @@ theorem Args.size_pos (as : Args) : 0 < as.size := by cases as <;> simp [Args.si
 theorem kok_printArgs (as : Args) (k : List Tok) : KOk (printArgs as ++ k) := by
   cases as <;> simp [printArgs, KOk]
 
-theorem parseC_atom_tail (fuel : Nat) (s : List Char) (k : List Tok) (hk : KOk k) :
-    (match k with
-      | .openCT :: r' => parseCmp fuel s r'
-      | .int n :: r' => if s = ['-'] then some (.int (-(n : Int)), r') else some (Tm.atom s, k)
-      | .flt x :: r' => if s = ['-'] then some (.flt true x, r') else some (Tm.atom s, k)
-      | _ => some (Tm.atom s, k)) = some (Tm.atom s, k) := by
-  cases k with
-  | nil => rfl
-  | cons t r => cases t <;> simp [KOk] at hk ⊢
-
 mutual
 theorem parseC_printC : ∀ (t : Tm) (fuel : Nat) (k : List Tok), t.size < fuel → KOk k →
     parseC fuel (printC t ++ k) = some (t, k)
@@ -44,8 +34,10 @@ theorem parseC_printC : ∀ (t : Tm) (fuel : Nat) (k : List Tok), t.size < fuel 
           cases k with
           | nil => simp [parseC]
           | cons t r => cases t <;> simp [KOk] at hk <;> simp [parseC]
-        · simp only [h1, h2, if_false, List.cons_append, List.nil_append, parseC]
-          exact parseC_atom_tail fuel a k hk
+        · simp only [h1, h2, if_false, List.cons_append, List.nil_append]
+          cases k with
+          | nil => simp [parseC]
+          | cons t r => cases t <;> simp [KOk] at hk <;> simp [parseC]
   | .int n, fuel, k, hf, hk => by
     cases fuel with
     | zero => simp [Tm.size] at hf
@@ -102,7 +94,5 @@ theorem parseArgs_printArgs : ∀ (as : Args) (fuel : Nat) (k : List Tok), as.si
       have is := parseArgs_printArgs ts fuel k (by omega)
       simp [printArgs, parseArgs, it, is]
 end
-
-theorem printC_length_le (t : Tm) : True := trivial
 
 end Scryer.Syntax
